@@ -47,10 +47,10 @@ def check_placement(src, attr_lists, rust):
             return "type %s not emitted" % name
         if by[name]["attrs"] != attr_lists.get(name, []):
             return "attributes before %s are %r, declared %r" % (name, by[name]["attrs"], attr_lists.get(name, []))
-    for name in DECLS:
-        for a in attr_lists.get(name, []):
-            if rust.count(a) != 1:
-                return "attribute %r occurs %d times in the emitted text" % (a, rust.count(a))
+    declared = [a for name in DECLS for a in attr_lists.get(name, [])]
+    for a in set(declared):
+        if rust.count(a) != declared.count(a):
+            return "attribute %r occurs %d times in the emitted text, %d times in the declarations" % (a, rust.count(a), declared.count(a))
     return None
 
 
@@ -105,6 +105,16 @@ def check(prop, tier, seed):
                 counter[0] += 1
                 unit = rng.choice(["a(é[€{😀}])", "k = \"v\", ", "(x)[y]{z}", "日本語 "])
                 lists[name].append("#[l%d %s]" % (counter[0], unit * rng.randint(200, 1500 if tier == "quick" else 8000)))
+        grammars.append((lists, []))
+    # byte-identical attributes: twice in a row, with another one in between, and the same attribute on two declarations
+    # ("several attributes on one declaration ... in the same order" includes equal ones; nothing may be merged)
+    for rep in range(6 if tier == "quick" else 60):
+        counter[0] += 1
+        x, y = "#[r%d %s]" % (counter[0], rng.choice(["a", "doc = \"\"", "é(€)", "cfg_attr(x, y)"])), "#[s%d]" % counter[0]
+        shapes_ = [[x, x], [x, y, x], [x, x, x], [y, x, x], [x, x, y]]
+        lists = {name: list(rng.choice(shapes_)) if rng.random() < 0.6 else ([x] if rng.random() < 0.5 else []) for name in DECLS}
+        if not any(len(v) >= 2 for v in lists.values()):
+            lists[rng.choice(DECLS)] = [x, x]
         grammars.append((lists, []))
     srcs = [build_grammar(l) for l, _ in grammars]
     resps = common.kv("gen", [{"id": k, "src": s, "want": ["rust"]} for k, s in enumerate(srcs)], timeout=1800)
